@@ -22,7 +22,8 @@ RULE = ("whole-model runs with recording shims on all eight modules (cold start,
         "relative to the working directory with and without .py while an importable decoy of the same name exists, "
         "by two files of the same base name in different directories (IBM and forcing), or by dotted module name; every "
         "run's plug-in copy carries a token unique to the run, many runs share one worker process; a sampled half goes through ladim.main.main(). Oracle over the recorded call log "
-        "and snapshots: per step exactly time, release, forcing, [write], tracker, ibm once each; Nsteps steps; close "
+        "and snapshots: per step exactly time, release, forcing, output, tracker, ibm once each (whether a record is due is "
+        "C07's business); Nsteps steps; close "
         "once per module that has one; forcing evaluated on the state that already holds the step's new particles; "
         "the record written from that very state with forcing-derived variables valid at t; the IBM sees the moved "
         "particles; an IBM kill at step n appears in no record after n; the file plug-in ran, not the decoy. "
@@ -67,6 +68,8 @@ def generate(seed: int, tier: str, idx: int) -> dict:
                 sc["flow"]["amp_" + c] = [a[k % len(a)] for k in range(n)]
         plan["main"] = False
         gen.make_restartable(sc)
+    # the other plug-in points (grid, forcing, output, state, time, release, tracker) by path or by dotted module name
+    plan["by_name"] = [m for m in ("grid", "forcing", "output", "state", "time", "release", "tracker") if s.chance(0.3)]
     sc["plan"] = plan
     return sc
 
@@ -129,7 +132,7 @@ def _install_plugin(d: Path, how: str, twin: bool = False):
 
 def check_protocol(res: Result, sc, run, first_step: int, last_step: int, ref) -> None:
     rec = run.rec
-    core = {("time", "update"), ("release", "update"), ("forcing", "update"), ("output", "write"),
+    core = {("time", "update"), ("release", "update"), ("forcing", "update"), ("output", "update"),
             ("tracker", "update"), ("ibm", "update")}
     per_step: dict[int, list[str]] = {}
     closes = []
@@ -137,13 +140,12 @@ def check_protocol(res: Result, sc, run, first_step: int, last_step: int, ref) -
         if meth == "close":
             closes.append(mod)
         elif (mod, meth) in core:
-            per_step.setdefault(st, []).append(mod if meth != "write" else "write")
+            per_step.setdefault(st, []).append(mod)
     p = sc["output"]["period"]
     # warm start: the catch-up step inside Model.__init__ runs release, forcing, tracker, ibm at step 0
     for st in range(first_step, last_step + 1):
         got = per_step.get(st, [])
-        due = st % p == 0 and st >= 0
-        want = ["time", "release", "forcing"] + (["write"] if due else []) + ["tracker", "ibm"]
+        want = ["time", "release", "forcing", "output", "tracker", "ibm"]
         if st == 0 and first_step == 0 and sc["plan"]["start"] == "warm":
             want = ["release", "forcing", "tracker", "ibm"]
         if got != want:
@@ -159,7 +161,7 @@ def check_protocol(res: Result, sc, run, first_step: int, last_step: int, ref) -
     # --- state visibility
     rpost = rec.snap_by_step("release.post")
     fpost = rec.snap_by_step("forcing.post")
-    wsnap = {s["step"]: s for s in rec.snaps_at("output.write")}
+    wsnap = {s["step"]: s for s in rec.record_snaps(p)}
     tpost = rec.snap_by_step("tracker.post")
     ipre = rec.snap_by_step("ibm.pre")
     ipost = rec.snap_by_step("ibm.post")
@@ -234,7 +236,16 @@ def execute(sc) -> Result:
     d = world.new_dir()
     ref = refmodel.RefWorld(sc)
     try:
-        edit = _install_plugin(d, pl["plugin"], twin=pl["plugin"] == "twin")
+        edit0 = _install_plugin(d, pl["plugin"], twin=pl["plugin"] == "twin")
+
+        def edit(cfg):
+            cfg = edit0(cfg) or cfg
+            for sec in pl.get("by_name", []):
+                if sec == "forcing" and pl["plugin"] == "twin":
+                    continue
+                if cfg.get(sec, {}).get("module", "").endswith("shim.py"):
+                    cfg[sec]["module"] = "ladsim.plugins.shim"
+            return cfg
         if pl["start"] == "cold":
             run = driver.run_scenario(sc, d, cfg_edit=edit, use_main=pl["main"], probe_fracs=(0.0,))
             account_run(res, run, sc)
@@ -256,7 +267,7 @@ def execute(sc) -> Result:
                                       cfg_edit=edit, probe_fracs=(0.0,), cfg_name="warm")
             account_run(res, run, sc)
             first, last = 0, sc["time"]["nsteps"] - offset
-        res.history_key = "|".join(map(str, (pl["start"], pl["plugin"], pl["main"]))) + "|" + abstract_history(run)
+        res.history_key = "|".join(map(str, (pl["start"], pl["plugin"], pl["main"]))) + "|" + abstract_history(run, sc)
         v, foreign = crash_violation(ID, run, ANCHORS, promises_completion=False)
         if v is not None:
             res.add(v)
@@ -269,7 +280,7 @@ def execute(sc) -> Result:
             res.probes["via_main"] += 1
         if pl["plugin"] in ("rel", "rel_py"):
             res.probes["plugin_relative_path"] += 1
-        if pl["plugin"] == "name":
+        if pl["plugin"] == "name" or pl.get("by_name"):
             res.probes["plugin_module_name"] += 1
         if pl["plugin"] == "twin":
             res.probes["plugin_same_basename_two_dirs"] += 1
